@@ -47,7 +47,7 @@ def setup() -> None:
 
 
 def budget(tier: str) -> int:
-    return 4000 if tier == "quick" else 200000
+    return 12000 if tier == "quick" else 240000
 
 
 # ---------------------------------------------------------------------------
@@ -135,6 +135,11 @@ def g_binary(ch: core.Chooser, name: str) -> dict:
         if ch.chance(0.3):  # make ties across operands
             b["const"]["flat"] = (a["const"]["flat"] * 8)[: len(b["const"]["flat"])] if a["const"]["dtype"] == b["const"]["dtype"] else b["const"]["flat"]
     ordering = name in ("less", "less_equal", "greater", "greater_equal", "equal", "not_equal", "maximum", "minimum")
+    if name in ("isclose", "allclose") and ch.chance(0.5):
+        a = _vals(ch.sub("ia"), shape, "inf")
+        b = _vals(ch.sub("ib"), pshape, "inf")
+        if ch.chance(0.7):  # same-signed infinities at the same positions
+            b["const"]["flat"] = (a["const"]["flat"] * 8)[: len(b["const"]["flat"])]
     if ordering and ch.chance(0.3):
         ext = ch.choice(["bigint", "uint8", "uint64", "inf"])
         a = _vals(ch.sub("ea"), shape, ext)
@@ -409,9 +414,14 @@ def generate(rs: int, tier: str, index: int) -> dict:
         if cm.chance(0.25):
             step["primer_kwargs"] = cm.choice([{"keepdims": True}, {"initial": 100}, {"dtype": "float64"}, {"dtype": "bool"}, {"axis": 0},
                                                {"axis": 0, "keepdims": True}, {"axis": 0, "initial": 100}, {"axis": -1, "dtype": "float64"}])
+        if cm.sub("errstate").chance(0.5 if fn in ("isclose", "allclose", "isfinite") else 0.1):
+            step["errstate"] = "raise"  # numpy's floating-point error state (process-wide): judged only where numpy itself returns under it
     allenvs = [(p, f) for p in POLICIES for f in FILLS]
     envs = [("stable", "zero")] + ch.sample([e for e in allenvs if e != ("stable", "zero")], 7 if tier == "thorough" else 2)
-    return {"property": ID, "run_seed": rs, "tier": tier, "prelude": prelude.gen_prelude(core.Chooser(rs, "prelude")), "envs": [list(e) for e in envs], "steps": [step]}
+    plan = {"property": ID, "run_seed": rs, "tier": tier, "prelude": prelude.gen_prelude(core.Chooser(rs, "prelude")), "envs": [list(e) for e in envs], "steps": [step]}
+    if ch.sub("interp").chance(0.01):
+        plan["interpreter"] = ["-O"]  # the whole run in `python -O` (assert statements stripped)
+    return plan
 
 
 # ---------------------------------------------------------------------------
@@ -452,6 +462,14 @@ def _build(v: Any, side: str) -> Any:
             return numpy.sum if side == "numpy" else numpoly.sum
         return model.build_value(v)
     return v
+
+
+def _errstate(step: dict) -> Any:
+    """Default: everything silent.  "raise": invalid operations and divisions by zero raise (integer wrap-around and
+    float overflow stay silent: numpy itself treats them differently for scalars and arrays)."""
+    if step.get("errstate") == "raise":
+        return numpy.errstate(invalid="raise", divide="raise", over="ignore", under="ignore")
+    return numpy.errstate(all="ignore")
 
 
 def _alias(specs: list, built: list) -> list:
@@ -553,7 +571,7 @@ class Runner:
         try:
             np_args = _alias(step["args"], [_build(a, "numpy") for a in step["args"]])
             kwargs = {k: _build(v, "numpy") for k, v in step["kwargs"].items()}
-            with numpy.errstate(all="ignore"):
+            with _errstate(step):
                 want = np_func(*np_args, **kwargs)
         except Exception as exc:  # noqa: BLE001
             self.bump("undecided:numpy-rejects-arguments")
@@ -619,7 +637,7 @@ class Runner:
                             self.bump("probe:primer_equal_number_other_spelling")
                         except Exception:  # noqa: BLE001
                             pass
-                    with numpy.errstate(all="ignore"):
+                    with _errstate(step):
                         got = func(*p_args, **kwargs)
                     conv = _to_numpy(got)
                 except Exception as exc:  # noqa: BLE001
@@ -787,7 +805,9 @@ def simplify(plan: dict):
     step = plan["steps"][0]
     if step["k"] != "mirror":
         return
-    for key in ("primer_kwargs", "primer_cast", "abort_first"):
+    if plan.get("interpreter"):
+        yield {k: v for k, v in plan.items() if k != "interpreter"}
+    for key in ("primer_kwargs", "primer_cast", "abort_first", "errstate"):
         if step.get(key):
             yield dict(plan, steps=[dict(step, **{key: None})])
     if step.get("spelling") == "method":
